@@ -4,7 +4,7 @@ CFG = dict(
     level="proof",
     lean_modules=["ElysModel.Props.C09"],
     props_files=["ElysModel/Props/C09.lean"],
-    runs=[scn_run("c09"), hist_run(focus="perp.")],
+    runs=[scn_run("c09"), hist_run(focus="perp."), fault_run(focus="perp.", whale=True)],
     rule=HIST_RULE + "; plus directed scenarios (mode scn, prefix c09)",
     trusted_base=COMMON_TB + ["the block's perpetual macro-op is reconstructed from the positions' own field changes (W); the pool aggregates are predicted and compared"],
     assumptions=["the arithmetic that reduces a position's fields to zero before DestroyMTP is not modelled (residual-zero side condition; witness theorem shows what happens otherwise)"],
